@@ -2757,6 +2757,263 @@ def r14_12(prog, rep, rid='R14.12'):
 
 
 # ------------------------------------------------------------------------------
+# R14.13  a record that exists is not replaced.  The recorded state of a pilot
+# lives in the record `self._pilots[pid]`; R14.10 decides the only store of
+# its 'state' item.  Storing a *whole* record under a key (or deleting the
+# record) writes the state as well: that is right only where the table is
+# known not to hold a record for that key (`pid not in self._pilots`, the
+# `.get(pid)` that returned None) - for a record that exists the state the
+# scheduler learned from the state notifications is thrown away.
+#
+def _absent_edges(f, g, key_txt, ATTR):
+    """[(test node id, label)]: branch edges on which `ATTR` is known to hold
+    no (usable) record for the key spelled key_txt"""
+    out = []
+
+    def lookup(e):
+        # ATTR.get(key) / ATTR.get(key, None)
+        return isinstance(e, ast.Call) and \
+            isinstance(e.func, ast.Attribute) and e.func.attr == 'get' and \
+            unparse(e.func.value) == ATTR and not e.keywords and \
+            1 <= len(e.args) <= 2 and unparse(e.args[0]) == key_txt and \
+            (len(e.args) == 1 or (isinstance(e.args[1], ast.Constant) and
+                                  e.args[1].value is None))
+
+    def looked_up(e, at):
+        if lookup(e):
+            return True
+        if isinstance(e, ast.Name) and e.id not in f.params:
+            ds = reaching_defs(g, e.id, at)
+            return bool(ds) and all(v is not None and lookup(v)
+                                    for _, v in ds)
+        return False
+
+    flip = {'T': 'F', 'F': 'T'}
+
+    def classify(t, at, depth=0):
+        """label of the edge on which no record is there, or None"""
+        lab = 'T'
+        while isinstance(t, ast.UnaryOp) and isinstance(t.op, ast.Not):
+            t, lab = t.operand, flip[lab]
+        if isinstance(t, ast.Compare) and len(t.ops) == 1:
+            op, a, b = t.ops[0], t.left, t.comparators[0]
+            if isinstance(op, (ast.In, ast.NotIn)) and \
+                    unparse(a) == key_txt and \
+                    unparse(b) in (ATTR, ATTR + '.keys()'):
+                return lab if isinstance(op, ast.NotIn) else flip[lab]
+            if isinstance(op, (ast.Is, ast.IsNot, ast.Eq, ast.NotEq)) and \
+                    isinstance(b, ast.Constant) and b.value is None and \
+                    looked_up(a, at):
+                return lab if isinstance(op, (ast.Is, ast.Eq)) else flip[lab]
+            return None
+        if looked_up(t, at):
+            # `if record:` - a record is a non-empty dict
+            return flip[lab]
+        if isinstance(t, ast.Name) and t.id not in f.params and depth < 3:
+            # a flag: `known = pid in self._pilots`
+            ds = reaching_defs(g, t.id, at)
+            if len(ds) == 1 and isinstance(ds[0][1], (ast.Compare,
+                                                      ast.UnaryOp)):
+                r = classify(ds[0][1], ds[0][0].id, depth + 1)
+                if r:
+                    return r if lab == 'T' else flip[r]
+        return None
+
+    for n in g.nodes:
+        if n.kind != 'test' or n.ast is None:
+            continue
+        r = classify(n.ast, n.id)
+        if r:
+            out.append((n.id, r))
+    return out
+
+
+def _record_value(prog, f, g, e, at, key_txt, ATTR, cls, depth=0):
+    """what a value stored as a whole record says about the recorded state:
+    'old'   - it is the record the table holds for the key (if there is one),
+    'fixed' - a new record whose content does not come from the old one,
+    None    - cannot be told"""
+    if depth > 4:
+        return None
+
+    def below(x):
+        return any(isinstance(y, ast.Attribute) and unparse(y) == ATTR
+                   for y in ast.walk(x))
+
+    if isinstance(e, (ast.Subscript, ast.Call)) and below(e):
+        if isinstance(e, ast.Subscript) and unparse(e.value) == ATTR and \
+                unparse(e.slice) == key_txt:
+            return 'old'
+        if isinstance(e, ast.Call) and isinstance(e.func, ast.Attribute) and \
+                e.func.attr in ('get', 'setdefault') and e.args and \
+                unparse(e.func.value) == ATTR and \
+                unparse(e.args[0]) == key_txt:
+            rest = [_record_value(prog, f, g, x, at, key_txt, ATTR, cls,
+                                  depth + 1) for x in e.args[1:]]
+            return 'old' if all(r in ('old', 'fixed') for r in rest) else None
+        return None
+    if isinstance(e, ast.BoolOp) and isinstance(e.op, ast.Or):
+        rs = [_record_value(prog, f, g, x, at, key_txt, ATTR, cls, depth + 1)
+              for x in e.values]
+        if rs[0] == 'old' and all(r in ('old', 'fixed') for r in rs):
+            return 'old'
+        return None
+    if isinstance(e, (ast.Dict, ast.DictComp)):
+        return None if below(e) else 'fixed'
+    if isinstance(e, ast.Call):
+        if below(e):
+            return None
+        if call_name(e) in ('dict', 'ru.Config', 'ru.TypedDict'):
+            return 'fixed'
+        try:
+            callee = prog.resolve_call(f, e, cls)
+        except Exception:
+            callee = None
+        if callee is not None and depth < 3:
+            rets = [n for n in walk(callee.node) if isinstance(n, ast.Return)]
+            if rets and all(isinstance(r.value, (ast.Dict, ast.DictComp)) and
+                            not below(r.value) for r in rets):
+                return 'fixed'
+        return None
+    if isinstance(e, ast.Name) and e.id not in f.params:
+        ds = reaching_defs(g, e.id, at)
+        if not ds or any(v is None for _, v in ds):
+            return None
+        rs = {_record_value(prog, f, g, v, dn.id, key_txt, ATTR, cls,
+                            depth + 1) for dn, v in ds}
+        return rs.pop() if len(rs) == 1 else None
+    return None
+
+
+def r14_13(prog, rep, rid='R14.13'):
+    rep.rule(rid, 'the task manager scheduler stores a whole record '
+             '`self._pilots[pid] = ..` (or deletes one) only where the table '
+             'is known to hold no record for that pilot: the record carries '
+             'the state recorded from the notifications, which only '
+             '_update_pilot_states may change', minimum=1)
+    sc = prog.cls(*TSCHED)
+    ATTR = 'self._pilots'
+    classes = [sc] + [c for c in prog.subclasses(sc) if c is not sc]
+    n = 0
+    seen = set()
+    for c in classes:
+        for mname, f in sorted(c.methods.items()):
+            if id(f.node) in seen or mname == '__init__':
+                continue
+            seen.add(id(f.node))
+            sites = []          # (stmt, key expr | None, value expr | None)
+            for kind, target, stmt in I.stores(f.node, nested=True):
+                if kind == 'assign' and isinstance(target, ast.Subscript) \
+                        and unparse(target.value) == ATTR and \
+                        not isinstance(target.slice, ast.Slice):
+                    v = stmt.value if isinstance(stmt, ast.Assign) and \
+                        len(stmt.targets) == 1 and \
+                        stmt.targets[0] is target else None
+                    sites.append((stmt, target.slice, v, 'store'))
+                elif kind == 'del' and isinstance(target, ast.Subscript) and \
+                        unparse(target.value) == ATTR:
+                    sites.append((stmt, target.slice, None, 'del'))
+                elif kind == 'mutate' and unparse(target) == ATTR:
+                    attr = stmt.func.attr
+                    if attr in ('pop', '__delitem__') and stmt.args:
+                        sites.append((stmt, stmt.args[0], None, 'del'))
+                    elif attr in ('clear', 'popitem'):
+                        sites.append((stmt, None, None, 'del'))
+                    elif attr == 'setdefault' and stmt.args:
+                        sites.append((stmt, stmt.args[0], None, 'keep'))
+                    elif attr == '__setitem__' and len(stmt.args) == 2:
+                        sites.append((stmt, stmt.args[0], stmt.args[1],
+                                      'store'))
+                    elif attr == 'update':
+                        a = stmt.args[0] if len(stmt.args) == 1 and \
+                            not stmt.keywords else None
+                        if isinstance(a, ast.Dict) and len(a.keys) == 1 and \
+                                a.keys[0] is not None:
+                            sites.append((stmt, a.keys[0], a.values[0],
+                                          'store'))
+                        else:
+                            raise AnalysisError(
+                                'UNRECOGNISED-IDIOM %s: `%s` stores records '
+                                'in bulk' % (f.where, short(stmt, 60)))
+            if not sites:
+                continue
+            g = cfg_of(f)
+            for stmt, key, value, what in sites:
+                node = I.enclosing_stmt_node(g, stmt)
+                if node is None:
+                    continue          # nested function: not followed
+                n += 1
+                rep.saw(f)
+                key_txt = unparse(key) if key is not None else None
+                if what == 'keep':
+                    rep.ok(rid, f, '`%s` keeps the record the table holds '
+                           'for %s' % (short(stmt, 50), key_txt), f.loc(stmt))
+                    continue
+                guarded = False
+                if key_txt is not None:
+                    ab = _absent_edges(f, g, key_txt, ATTR)
+                    names = {x.id for x in ast.walk(key)
+                             if isinstance(x, ast.Name)}
+                    ok_edges = []
+                    for tid, lab in ab:
+                        same = all(
+                            {d.id for d, _ in reaching_defs(g, nm, tid)} ==
+                            {d.id for d, _ in reaching_defs(g, nm, node.id)}
+                            for nm in names)
+                        if same:
+                            ok_edges.append((tid, lab))
+                    guarded = bool(ok_edges) and node.id not in g.reachable(
+                        g.entry.id, skip_edges=ok_edges)
+                if guarded:
+                    rep.ok(rid, f, '`%s` runs only where %s holds no record '
+                           'for %s' % (short(stmt, 50), ATTR, key_txt),
+                           f.loc(stmt))
+                    continue
+                kind = 'fixed' if what == 'del' else _record_value(
+                    prog, f, g, value, node.id, key_txt, ATTR, c) \
+                    if value is not None else None
+                if kind == 'old':
+                    rep.ok(rid, f, '`%s` stores the record the table holds '
+                           'already' % short(stmt, 50), f.loc(stmt))
+                    continue
+                if kind is None:
+                    raise AnalysisError(
+                        'UNRECOGNISED-IDIOM %s: `%s` stores a record for a '
+                        'pilot that may have one already, and the value '
+                        'cannot be related to the old record'
+                        % (f.where, short(stmt, 60)))
+                does = 'removes the record of the pilot' if what == 'del' \
+                    else 'stores a new record for the pilot'
+                rep.bad(rid, f, '%s record %s' % (
+                    'dropped' if what == 'del' else 'replaced',
+                    short(value if value is not None else stmt, 40)),
+                    '%s: `%s` %s on a path on which nothing tests that %s '
+                    'holds no record for `%s` yet.  The record of a known '
+                    'pilot carries the state the scheduler recorded from the '
+                    'state notifications (item \'state\', written by '
+                    '_update_pilot_states through _pilot_state_progress); '
+                    'it is thrown away here, and the next thing recorded is '
+                    'whatever arrives next - the older snapshot that travels '
+                    'with the command, or a late notification: the '
+                    'scheduler\'s view of the pilot moves backwards and can '
+                    'leave a final state'
+                    % (f.qual, short(stmt, 60), does, ATTR,
+                       key_txt or 'any pilot'),
+                    f.loc(stmt),
+                    history='state notification PMGR_ACTIVE (or FAILED) for '
+                    'a pilot reaches the scheduler before the add_pilots '
+                    'command that carries the snapshot PMGR_LAUNCHING of the '
+                    'same pilot: %s runs for the known pilot, the record '
+                    'says None again, _update_pilot_states records '
+                    'PMGR_LAUNCHING after PMGR_ACTIVE (a FAILED pilot is '
+                    'scheduled on again)' % f.qual)
+    if n < 1:
+        raise AnalysisError('UNRECOGNISED-IDIOM %s: no store of a whole '
+                            'record `%s[..] = ..` in the scheduler classes'
+                            % (sc.where, ATTR))
+
+
+# ------------------------------------------------------------------------------
 # R14.3  final cause is not killed
 #
 def cause_defs(prog, agent):
@@ -3150,6 +3407,248 @@ def r14_8(prog, rep, rid='R14.8'):
         raise AnalysisError('R14.8: no method of Agent_0 that records a '
                             'cause is called from two methods (the shared '
                             'stop path is gone or changed shape)')
+
+
+# ------------------------------------------------------------------------------
+# R14.14  CANCELED only for a request that names this pilot.  Control messages
+# are broadcast: every agent of the session sees every `cancel_pilots`
+# request.  A handler of a control message may record a cause that finalize
+# maps to CANCELED (or call the method that records it) only on paths on which
+# a test relating a value of the agent itself (its pilot id) to the content of
+# the message (`self._pid in arg['uids']`, `uid == self._pid`) came out as
+# `this pilot is named`.
+#
+def _is_self_call(c):
+    fn = c.func
+    return isinstance(fn, ast.Attribute) and (
+        (isinstance(fn.value, ast.Name) and fn.value.id == 'self') or
+        (isinstance(fn.value, ast.Call) and
+         isinstance(fn.value.func, ast.Name) and
+         fn.value.func.id == 'super'))
+
+
+def _msg_handlers(prog, agent, ctl, depth=3):
+    """{id(f.node): [f, message parameters]} for the control callback and the
+    self callees it hands (a part of) the message to"""
+    out = {}
+
+    def visit(f, mps, d):
+        k = id(f.node)
+        if k in out and mps <= out[k][1]:
+            return
+        out.setdefault(k, [f, set()])[1].update(mps)
+        if d <= 0:
+            return
+        deps = Deps(f.node, nested=False, implicit=False)
+        for c in calls_in(f.node):
+            if not _is_self_call(c):
+                continue
+            try:
+                g = prog.resolve_call(f, c, agent)
+            except Exception:
+                g = None
+            if g is None or g is f:
+                continue
+            ps = {pn for pn, x in _bound_args(g, c)
+                  if set(deps.expr_depends(x)) & out[k][1]}
+            if ps:
+                visit(g, ps, d - 1)
+    visit(ctl, {p for p in ctl.params if p not in ('self', 'cls')}, depth)
+    return out
+
+
+def _named_edges(f, g, mps):
+    """([(test node id, label)], [opaque test asts]): the branch edges of f
+    taken when a value of the agent is found in / equal to a value of the
+    message, and the tests on the message that cannot be classified"""
+    deps = Deps(f.node, nested=False, implicit=False)
+
+    def of_msg(e):
+        return bool(set(deps.expr_depends(e)) & mps)
+
+    def own(e):
+        return not isinstance(e, ast.Constant) and not of_msg(e) and any(
+            isinstance(x, ast.Attribute) and isinstance(x.value, ast.Name)
+            and x.value.id == 'self' for x in ast.walk(e)) or (
+            isinstance(e, ast.Name) and not of_msg(e) and
+            any(str(r).startswith('self.') for r in deps.expr_depends(e)))
+
+    def classify(t, at, depth=0):
+        """label of the edge `named`, 'opaque', or None (not about the
+        addressee)"""
+        lab = 'T'
+        while isinstance(t, ast.UnaryOp) and isinstance(t.op, ast.Not):
+            t, lab = t.operand, ('F' if lab == 'T' else 'T')
+        flip = {'T': 'F', 'F': 'T'}
+        if isinstance(t, ast.Compare) and len(t.ops) == 1:
+            op, a, b = t.ops[0], t.left, t.comparators[0]
+            if isinstance(op, (ast.In, ast.NotIn)) and own(a) and of_msg(b):
+                return lab if isinstance(op, ast.In) else flip[lab]
+            if isinstance(op, (ast.Eq, ast.NotEq)) and (
+                    (own(a) and of_msg(b)) or (own(b) and of_msg(a))):
+                return lab if isinstance(op, ast.Eq) else flip[lab]
+        if isinstance(t, ast.Name) and t.id not in f.params and depth < 3:
+            ds = reaching_defs(g, t.id, at)
+            v = ds[0][1] if len(ds) == 1 else None
+            if isinstance(v, ast.Call) and call_name(v) == 'bool' and \
+                    len(v.args) == 1 and not v.keywords:
+                v = v.args[0]
+            if isinstance(v, ast.BoolOp):
+                # flag = a and b: the flag holds only if every part does;
+                # flag = a or b: it fails only if every part does
+                want = 'T' if isinstance(v.op, ast.And) else 'F'
+                rs = [classify(x, ds[0][0].id, depth + 1) for x in v.values]
+                if want in rs:
+                    return want if lab == 'T' else flip[want]
+                return 'opaque' if 'opaque' in rs else None
+            if isinstance(v, (ast.Compare, ast.UnaryOp, ast.Call)):
+                r = classify(v, ds[0][0].id, depth + 1)
+                if r in ('T', 'F'):
+                    return r if lab == 'T' else flip[r]
+                return r
+        if of_msg(t) and any(isinstance(x, ast.Call) and _is_self_call(x)
+                             for x in ast.walk(t)):
+            return 'opaque'
+        return None
+
+    edges, opaque = [], []
+    for n in g.nodes:
+        if n.kind != 'test' or n.ast is None:
+            continue
+        r = classify(n.ast, n.id)
+        if r == 'opaque':
+            opaque.append(n.ast)
+        elif r:
+            edges.append((n.id, r))
+    return edges, opaque
+
+
+def r14_14(prog, rep, rid='R14.14'):
+    rep.rule(rid, 'a handler of a control message (Agent_0.control_cb and '
+             'the methods it hands the message to) records a cause that '
+             'finalize maps to CANCELED - or calls the method that records '
+             'it - only on paths on which a test of the agent\'s own id '
+             'against the content of the message found this pilot named',
+             minimum=1)
+    agent = prog.cls(*AGENT)
+    fin = prog.method(AGENT[0], AGENT[1], 'finalize')
+    ctl = prog.method(AGENT[0], AGENT[1], 'control_cb')
+    state_of = cause_states(prog, agent, fin)
+    canceled = prog.const(STATES, 'CANCELED')
+    handlers = _msg_handlers(prog, agent, ctl)
+    probe = Interp(prog, agent, track=[CAUSE])
+    eff = {}
+
+    def cancels(lit):
+        st = state_of(lit)
+        return lit is not UNK and lit is not None and UNK not in st and \
+            bool(st) and st <= {canceled}
+
+    def recorder(caller, call, m):
+        """the method, entered through this call (arguments / defaults
+        bound) with no cause recorded, leaves one that means CANCELED"""
+        k = id(m.node)
+        if k not in eff:
+            eff[k] = m.name != '__init__' and probe.may_write(m)
+        return eff[k] and any(cancels(v) for v in
+                              site_cause(prog, agent, caller, call, m))
+
+    memo = {}
+
+    def open_sites(f):
+        """[(function, stmt)] cause records below f that are reached from the
+        entry of f without taking an edge `this pilot is named`; second
+        value: all candidate sites of f"""
+        k = id(f.node)
+        if k in memo:
+            return memo[k]
+        memo[k] = ([], [])                       # recursion: nothing new
+        mps = handlers[k][1]
+        g = cfg_of(f)
+        cand = []                                # (cfg node, stmt, leaves)
+        for kind, target, stmt in I.stores(f.node):
+            if _key_of(target) == CAUSE and kind == 'assign' and \
+                    isinstance(stmt, ast.Assign) and \
+                    cancels(prog.fold(f.module, stmt.value, f.cls)):
+                cand.append((stmt, [(f, stmt)]))
+        for c in calls_in(f.node):
+            if not _is_self_call(c):
+                continue
+            try:
+                m = prog.resolve_call(f, c, agent)
+            except Exception:
+                m = None
+            if m is None or m is f:
+                continue
+            if id(m.node) in handlers:
+                sub = open_sites(m)[0]
+                if sub:
+                    cand.append((c, sub))
+            elif recorder(f, c, m):
+                cand.append((c, [(f, c)]))
+        if not cand:
+            memo[k] = ([], [])
+            return memo[k]
+        edges, opaque = _named_edges(f, g, mps)
+        free = g.reachable(g.entry.id, skip_edges=edges)
+        out, allc = [], []
+        for anchor, leaves in cand:
+            node = I.enclosing_stmt_node(g, anchor)
+            if node is None:
+                continue
+            allc += leaves
+            if node.id in free:
+                if opaque:
+                    raise AnalysisError(
+                        'UNRECOGNISED-IDIOM %s: whether `%s` runs only for a '
+                        'message that names this pilot is decided by `%s`, '
+                        'which is not followed'
+                        % (f.where, short(anchor, 40), short(opaque[0], 40)))
+                out += leaves
+        memo[k] = (out, allc)
+        return memo[k]
+
+    bad, _ = open_sites(ctl)
+    badk = {(id(f.node), id(s)) for f, s in bad}
+    seen = set()
+    n = 0
+    for k, (f, mps) in sorted(handlers.items(), key=lambda kv: kv[1][0].qual):
+        for hf, stmt in memo.get(k, ([], []))[1]:
+            key = (id(hf.node), id(stmt))
+            if key in seen or hf is not f:
+                continue
+            seen.add(key)
+            n += 1
+            rep.saw(hf)
+            rep.check(key not in badk, rid, hf,
+                      '%s: `%s` (cause that means CANCELED) runs only for a '
+                      'control message that names this pilot'
+                      % (hf.qual, short(stmt, 40)),
+                      construct=stmt,
+                      message='%s: `%s` records a termination cause that '
+                      'Agent_0.finalize maps to CANCELED, and it is reached '
+                      'from the entry of %s on a path that never takes the '
+                      '`is named` branch of a test of the agent\'s own id '
+                      'against the pilots listed in the message (%s).  '
+                      'Control messages are broadcast to all agents of the '
+                      'session: a request that does not name this pilot (an '
+                      'empty or missing list, the uids of other pilots) '
+                      'makes this agent stop and report CANCELED although '
+                      'nobody canceled it'
+                      % (hf.qual, short(stmt, 50), ctl.qual,
+                         'message parameters: %s' % ', '.join(sorted(mps))),
+                      loc=hf.loc(stmt),
+                      history='PilotManager.cancel_pilots() of a second '
+                      'pilot manager that has no pilots (session close) '
+                      'publishes {cmd: cancel_pilots, arg: {uids: []}}: the '
+                      'agent of a running pilot of the first manager records '
+                      '\'cancel\', stops and ends CANCELED instead of DONE '
+                      'at its run time limit')
+    if not n:
+        raise AnalysisError('UNRECOGNISED-IDIOM %s: no handler of a control '
+                            'message records a cause that means CANCELED '
+                            '(the cancel_pilots handler is gone or changed '
+                            'shape)' % ctl.where)
 
 
 # ------------------------------------------------------------------------------
@@ -4186,7 +4685,12 @@ def run(prog, rep, tier):
         '_update_pilot_states is the only writer of that record (R14.10); '
         'the record stored for a pilot is an object made in the iteration / '
         'call that stores it, so the records of two pilots are never one '
-        'object (R14.12); a thing of another type (a task update of the same '
+        'object (R14.12); a whole record is stored (or deleted) only where '
+        'the table holds none for that pilot, so the recorded state is not '
+        'thrown away (R14.13); a handler of a control message records a '
+        'cause that means CANCELED only on paths on which the agent found '
+        'its own id named by the message (R14.14); '
+        'a thing of another type (a task update of the same '
         'bulk) does not make the pilot manager leave its loop over the '
         'things (R14.6); '
         'the read of the signal file in bootstrap_0.sh depends on nothing '
@@ -4231,11 +4735,13 @@ def run(prog, rep, tier):
                 unknown_by_value=unknown_by_value)
     rep.attempt(r14_10, prog, rep)
     rep.attempt(r14_12, prog, rep)
+    rep.attempt(r14_13, prog, rep)
     defs = rep.attempt(r14_3, prog, rep)
     writes = rep.attempt(r14_4_5, prog, rep, defs)
     if writes:
         rep.attempt(r14_11, prog, rep, writes)
     rep.attempt(r14_8, prog, rep)
+    rep.attempt(r14_14, prog, rep)
     rep.attempt(r14_6, prog, rep)
     if tier == 'thorough':
         sweep_result_tests(prog, rep)
@@ -4861,4 +5367,195 @@ SILENT += [
                           "            if thing.get('type') in ['task', 'service']:\n"
                           "                continue\n\n"
                           "            if 'type' in thing and thing['type'] == 'pilot':\n")]),
+]
+
+
+# ------------------------------------------------------------------------------
+# round 6: R14.13 (a record of the tmgr scheduler that exists is not replaced
+# or dropped) and R14.14 (CANCELED only for a control message that names this
+# pilot)
+#
+_ADD_OLD = ("                    if pid in self._pilots:\n"
+            "                        if self._pilots[pid]['role'] == ADDED:\n"
+            "                            raise ValueError('pilot already added (%s)' % pid)\n"
+            "                    else:\n"
+            "                        self._pilots[pid] = {'role'  : None,\n"
+            "                                             'state' : None,\n"
+            "                                             'pilot' : None,\n"
+            "                                             'info'  : dict()\n"
+            "                                            }\n"
+            "\n"
+            "                    self._pilots[pid]['role']  = ADDED\n"
+            "                    self._pilots[pid]['pilot'] = pilot\n")
+_RAISE_ADDED = "raise ValueError('pilot already added (%s)' % pid)\n"
+_CANCEL_GUARD = ("        arg = msg['arg']\n\n"
+                 "        if self._pid not in arg.get('uids'):\n"
+                 "            self._log.debug('ignore cancel %s', msg)\n"
+                 "            return True\n")
+_CANCEL_BODY = ("        self._log.info('cancel pilot cmd')\n"
+                "        self._final_cause = 'cancel'\n"
+                "        self.publish(rpc.CONTROL_PUBSUB, {'cmd' : 'terminate',\n"
+                "                                          'arg' : None})\n"
+                "        self.stop()\n\n"
+                "        # work is done - unregister this cb\n"
+                "        return False\n")
+
+MUTATIONS += [
+    dict(name='R14.13 seed C14-i5: add_pilots rebuilds the record of a pilot the scheduler knows already',
+         rules=('R14.13',), edits=[
+        (_T, _ADD_OLD,
+             "                    if self._pilots.get(pid, {}).get('role') == ADDED:\n"
+             "                        " + _RAISE_ADDED + "\n"
+             "                    self._pilots[pid] = {'role'  : ADDED,\n"
+             "                                         'state' : None,\n"
+             "                                         'pilot' : pilot,\n"
+             "                                         'info'  : dict()}\n")]),
+    dict(name='R14.13 the same with the new record held by a local and the role test under `pid in`',
+         rules=('R14.13',), edits=[
+        (_T, _ADD_OLD,
+             "                    if pid in self._pilots and \\\n"
+             "                            self._pilots[pid]['role'] == ADDED:\n"
+             "                        " + _RAISE_ADDED + "\n"
+             "                    record = dict(role=ADDED, state=None, pilot=pilot,\n"
+             "                                  info=dict())\n"
+             "                    self._pilots[pid] = record\n")]),
+    dict(name='R14.13 the same through dict.update with a one-item display',
+         rules=('R14.13',), edits=[
+        (_T, _ADD_OLD,
+             "                    if self._pilots.get(pid, {}).get('role') == ADDED:\n"
+             "                        " + _RAISE_ADDED + "\n"
+             "                    self._pilots.update({pid: {'role': ADDED, 'state': None,\n"
+             "                                               'pilot': pilot, 'info': dict()}})\n")]),
+    dict(name='R14.13 remove_pilots drops the record (and the recorded state) instead of marking it',
+         rules=('R14.13',), edits=[
+        (_T, "                    self._pilots[pid]['role'] = REMOVED\n"
+             "                    self._log.debug('removed pilot: %s', self._pilots[pid])\n",
+             "                    self._log.debug('removed pilot: %s', self._pilots[pid])\n"
+             "                    del self._pilots[pid]\n")]),
+    dict(name='R14.13 sibling site: _update_pilot_states makes the empty record under a test of the wrong table',
+         rules=('R14.13',), edits=[
+        (_T, "                if pid not in self._pilots:\n                    self._pilots[pid] = {'role'  : None,\n                                         'state' : None,\n                                         'pilot' : None,\n                                         'info'  : dict()  # scheduler private info\n",
+             "                if pid not in self._early:\n                    self._pilots[pid] = {'role'  : None,\n                                         'state' : None,\n                                         'pilot' : None,\n                                         'info'  : dict()  # scheduler private info\n")]),
+    dict(name='R14.14 seed C14-i6: a cancel request with an empty uid list addresses every agent',
+         rules=('R14.14',), edits=[
+        (_A, _CANCEL_GUARD,
+             "        arg  = msg['arg']\n"
+             "        uids = arg.get('uids')\n\n"
+             "        # a request which does not name any pilot addresses all pilots\n"
+             "        if uids and self._pid not in ru.as_list(uids):\n"
+             "            self._log.debug('ignore cancel %s', msg)\n"
+             "            return True\n")]),
+    dict(name='R14.14 the test for the addressee only logs, the return is gone',
+         rules=('R14.14',), edits=[
+        (_A, _CANCEL_GUARD,
+             "        arg = msg['arg']\n\n"
+             "        if self._pid not in arg.get('uids'):\n"
+             "            self._log.debug('ignore cancel %s', msg)\n")]),
+    dict(name='R14.14 polarity: the agent stops for requests that name other pilots',
+         rules=('R14.14',), edits=[
+        (_A, _CANCEL_GUARD,
+             "        arg = msg['arg']\n\n"
+             "        if self._pid in arg.get('uids'):\n"
+             "            self._log.debug('ignore cancel %s', msg)\n"
+             "            return True\n")]),
+    dict(name='R14.14 fast path: one-element requests are taken without comparing the uid',
+         rules=('R14.14',), edits=[
+        (_A, _CANCEL_GUARD,
+             "        arg  = msg['arg']\n"
+             "        uids = arg.get('uids')\n"
+             "        mine = len(uids) == 1 or self._pid in uids\n\n"
+             "        if not mine:\n"
+             "            self._log.debug('ignore cancel %s', msg)\n"
+             "            return True\n")]),
+    dict(name='R14.14 cancel moved into a helper that is also called before the addressee test',
+         rules=('R14.14',), edits=[
+        (_A, _CANCEL_GUARD + "\n" + _CANCEL_BODY,
+             "        arg = msg['arg']\n\n"
+             "        if not arg.get('uids'):\n"
+             "            return self._do_cancel()\n\n"
+             "        if self._pid not in arg.get('uids'):\n"
+             "            self._log.debug('ignore cancel %s', msg)\n"
+             "            return True\n\n"
+             "        return self._do_cancel()\n\n\n"
+             "    def _do_cancel(self):\n\n" + _CANCEL_BODY)]),
+]
+
+SILENT += [
+    dict(name='R14.13 add_pilots looks the record up once and creates it when there is none', edits=[
+        (_T, _ADD_OLD,
+             "                    record = self._pilots.get(pid)\n\n"
+             "                    if record is None:\n"
+             "                        record = {'role': None, 'state': None,\n"
+             "                                  'pilot': None, 'info': dict()}\n"
+             "                        self._pilots[pid] = record\n\n"
+             "                    elif record['role'] == ADDED:\n"
+             "                        " + _RAISE_ADDED + "\n"
+             "                    record['role']  = ADDED\n"
+             "                    record['pilot'] = pilot\n")]),
+    dict(name='R14.13 add_pilots with the absence test first (elif for the role)', edits=[
+        (_T, _ADD_OLD,
+             "                    if pid not in self._pilots:\n"
+             "                        self._pilots[pid] = {'role'  : None,\n"
+             "                                             'state' : None,\n"
+             "                                             'pilot' : None,\n"
+             "                                             'info'  : dict()}\n\n"
+             "                    elif self._pilots[pid]['role'] == ADDED:\n"
+             "                        " + _RAISE_ADDED + "\n"
+             "                    self._pilots[pid]['role']  = ADDED\n"
+             "                    self._pilots[pid]['pilot'] = pilot\n")]),
+    dict(name='R14.13 add_pilots makes the missing record with setdefault and works on the result', edits=[
+        (_T, _ADD_OLD,
+             "                    record = self._pilots.setdefault(pid, {'role': None,\n"
+             "                                 'state': None, 'pilot': None, 'info': dict()})\n\n"
+             "                    if record['role'] == ADDED:\n"
+             "                        " + _RAISE_ADDED + "\n"
+             "                    record['role']  = ADDED\n"
+             "                    record['pilot'] = pilot\n")]),
+    dict(name='R14.13 absence held by a flag, early continue for the known pilot in _update_pilot_states', edits=[
+        (_T, "                if pid not in self._pilots:\n                    self._pilots[pid] = {'role'  : None,\n",
+             "                known = pid in self._pilots\n                if not known:\n                    self._pilots[pid] = {'role'  : None,\n")]),
+    dict(name='R14.14 missing list tolerated, addressee test kept (not uids or not in)', edits=[
+        (_A, _CANCEL_GUARD,
+             "        arg  = msg['arg']\n"
+             "        uids = arg.get('uids')\n\n"
+             "        if not uids or self._pid not in ru.as_list(uids):\n"
+             "            self._log.debug('ignore cancel %s', msg)\n"
+             "            return True\n")]),
+    dict(name='R14.14 positive form: cancel inside `if self._pid in uids`', edits=[
+        (_A, _CANCEL_GUARD + "\n" + _CANCEL_BODY,
+             "        uids = msg['arg'].get('uids') or []\n\n"
+             "        if self._pid in uids:\n\n"
+             + _CANCEL_BODY.replace("        ", "            ") + "\n"
+             "        self._log.debug('ignore cancel %s', msg)\n"
+             "        return True\n")]),
+    dict(name='R14.14 addressee test held by a local, own id through an alias', edits=[
+        (_A, _CANCEL_GUARD,
+             "        arg  = msg['arg']\n"
+             "        pid  = self._pid\n"
+             "        mine = pid in arg.get('uids')\n\n"
+             "        if not mine:\n"
+             "            self._log.debug('ignore cancel %s', msg)\n"
+             "            return True\n")]),
+    dict(name='R14.14 addressee flag as a conjunction (list there and pilot in it)', edits=[
+        (_A, _CANCEL_GUARD,
+             "        arg  = msg['arg']\n"
+             "        uids = arg.get('uids')\n"
+             "        mine = bool(uids) and self._pid in uids\n\n"
+             "        if not mine:\n"
+             "            self._log.debug('ignore cancel %s', msg)\n"
+             "            return True\n")]),
+    dict(name='R14.14 the cancel steps in a helper without the message, called after the test', edits=[
+        (_A, _CANCEL_GUARD + "\n" + _CANCEL_BODY,
+             _CANCEL_GUARD + "\n"
+             "        return self._do_cancel()\n\n\n"
+             "    def _do_cancel(self):\n\n" + _CANCEL_BODY)]),
+    dict(name='R14.14 uids searched by a loop with an equality test', edits=[
+        (_A, _CANCEL_GUARD,
+             "        arg = msg['arg']\n\n"
+             "        for uid in arg.get('uids'):\n"
+             "            if uid == self._pid:\n"
+             "                break\n"
+             "        else:\n"
+             "            self._log.debug('ignore cancel %s', msg)\n"
+             "            return True\n")]),
 ]
